@@ -34,6 +34,17 @@
 (*   Len, Size (RLock) and Range (unlocked) are one step each.             *)
 (*   "Blocked": a thread whose next step needs the mutex while mtx = -1    *)
 (*   parks on it forever.                                                  *)
+(*   step "cb"     with Callback (cache created WithDeleteCallback): the   *)
+(*                 onDelete callback is a yield point INSIDE the locked    *)
+(*                 section (the driver's callback parks).  evict calls it  *)
+(*                 per victim after `c.size -= es` and before the victim   *)
+(*                 leaves list and index; LoadAndDelete before it changes  *)
+(*                 anything.  "cs" runs up to the first callback, "cb"     *)
+(*                 from a callback to the next one or to hook *.unlock.    *)
+(*   Waits: a call needing the mutex may be STARTED while another thread   *)
+(*   is inside its locked section (StartWait, res = WAIT): it parks on the *)
+(*   mutex, must not return or change anything, and goes on in the step in *)
+(*   which the holder unlocks (act.w / wret / wres of that step).          *)
 (*                                                                         *)
 (* Code-version switches (the spec follows the code):                      *)
 (*   FixUnlock   the evict-error exit of Put unlocks                       *)
